@@ -117,6 +117,33 @@ theorem C05_bodies_are_override_chain (i : Inst) (args : List Int) :
   have h := runChain_prefix i.hier 0 args (i.steps + 1)
   exact ⟨h, (overriding_sorted i.hier 0).sublist h.sublist⟩
 
+/-- **Exactly which bodies run** (lower and upper bound at once, for every hierarchy and every argument list): of the
+    levels that define `step`, in MRO order, take those in front of the first one that cannot accept the arguments
+    (`def step(self)` reached with arguments); the bodies that run are these up to and including the first that does not
+    call `super().step(...)` — each of them, each once, each seeing the incremented counter and the caller's arguments;
+    the call raises `TypeError` iff there are arguments and every body that ran called super. -/
+theorem C05_bodies_are_exactly_the_super_chain (i : Inst) (args : List Int) :
+    let good := (ovLevels i.hier 0).takeWhile (fun p => args.isEmpty || p.2.takesArgs)
+    let n := (good.takeWhile (fun p => p.2.callsSuper)).length
+    (callStep i args).2.1 = (good.take (n + 1)).map (fun p => ⟨p.1, i.steps + 1, args⟩) ∧
+    (callStep i args).2.2 = (args.isEmpty || decide (n < good.length)) ∧
+    (ovLevels i.hier 0).map (·.1) = overriding i.hier 0 ∧
+    ∀ p ∈ ovLevels i.hier 0, i.hier[p.1]? = some p.2 ∧ p.2.overrides = true := by
+  have h := runChain_eq_chainSpec i.hier 0 args (i.steps + 1)
+  refine ⟨?_, ?_, ovLevels_depths _ _, fun p hp => ?_⟩
+  · show (runChain i.hier 0 args (i.steps + 1)).1 = _
+    rw [h]; rfl
+  · show (runChain i.hier 0 args (i.steps + 1)).2 = _
+    rw [h]; rfl
+  · have := ovLevels_get i.hier 0 p hp
+    exact ⟨by simpa using this.2.1, this.2.2⟩
+
+/-- non-vacuity: three overriding levels, the middle one `def step(self)`: with an argument only the first body runs and the
+    call raises; without arguments all three run -/
+example : (callStep (Inst.new [⟨true, true, true⟩, ⟨true, true, false⟩, ⟨true, false, true⟩] 9) [4]).2 = ([⟨0, 1, [4]⟩], false) := by decide
+example : ((callStep (Inst.new [⟨true, true, true⟩, ⟨true, true, false⟩, ⟨true, false, true⟩] 9) []).2.1.map (·.depth)) = [0, 1, 2] := by
+  decide
+
 /-- A call without arguments never raises, and if some level defines `step` the most derived
     such level runs first (inherited from an intermediate base class or overridden directly). -/
 theorem C05_most_derived_override_runs_first (i : Inst) :
